@@ -1,4 +1,5 @@
 import Spdc.Real.ConfigFlow
+import Spdc.Real.ComposeAutoLemmas
 /-!
 # C17 — invalid configurations give an error, never a panic or a non-finite setup
 
@@ -8,7 +9,8 @@ the violation.  `Ext` are the numeric sub-routines; `ExtNoPanic ext` says that t
 by themselves (panics inside them are searched for on the real code, see notes/C17.md).
 -/
 namespace Spdc.Props.C17
-open Spdc Spdc.PM Spdc.Cfg Spdc.Outcome
+open Spdc Spdc.Cfg Spdc.Outcome
+open Spdc.PM hiding Setup Beam twoPi sec cLight
 
 /-- an outcome that neither panics nor is `ok` is an error -/
 theorem err_of_np_of_not_ok {β : Type} {x : Outcome β} (h1 : NP x) (h2 : ∀ b, x ≠ .ok b) :
@@ -96,6 +98,44 @@ theorem ok_fields_partial (cfg : Config ℝ) (ext : Ext ℝ) (s : Setup ℝ)
   rcases thetaStep_ok hc1 with ⟨_, rfl⟩ | ⟨_, _, th, hth, rfl⟩
   · exact Or.inl rfl
   · exact Or.inr ⟨th, optimumTheta_ok hth, rfl⟩
+
+/-! ## composed model
+
+`no_panic` above assumes `ExtNoPanic ext`.  For the composed routines (`Compose.composedExt`,
+`Spdc/Model/ComposeAuto.lean`) that assumption is a THEOREM over ℝ (`Compose.extNoPanic_composed`):
+
+* Snell inverse — the cost `|sin θe − n(θ) sin θ|` of the modelled Nelder–Mead is a real number, so
+  `NM1D.run_spec` yields a value;
+* optimum idler, optimal waist position, poling sign — straight-line code behind the wavelength guard;
+* optimum poling period — inside the optimiser's bounds `[f64::MIN_POSITIVE, L]` the trial period is
+  positive, so `k_eff`'s `assert!` cannot fire, the optimum idler exists (`λp < λs`), the cost is real;
+* optimum crystal angle — the simplex NESTED in its cost (re-aiming the signal at its external angle)
+  is a value by the first item, the rest as above.
+
+What remains outside the theorem: IEEE NaN.  Over `f64` a cost can be NaN (an index far outside the
+Sellmeier range, `asin` of an argument above 1), and argmin then fails — those panics exist in the
+real crate and the `Float` run of the SAME definitions reproduces them case by case (op
+`cmpa_from_config`, malformed stream: identical PANIC sets). -/
+
+/-- composed model, T2 with the `ExtNoPanic` hypothesis discharged: `try_as_spdc` with every numeric
+sub-routine computed by the composed model never panics, for every configuration (over ℝ). -/
+theorem compose_no_panic (cfg : Config ℝ) :
+    (Compose.trySpdc cfg).isPanic = false ∧ (Compose.fromConfig cfg).isPanic = false := by
+  have h := no_panic cfg Compose.composedExt Compose.extNoPanic_composed
+  refine ⟨h, ?_⟩
+  show NP ((Compose.trySpdc cfg).map (Compose.toCompose cfg))
+  exact np_map _ h
+
+/-- composed model, T1 with the concrete routines: the listed configurations are errors of the
+composed `try_as_spdc` (no hypothesis on sub-routines left) -/
+theorem compose_listed_errors (cfg : Config ℝ) :
+    (cfg.signal.thetaDeg.isSome = cfg.signal.thetaExternalDeg.isSome →
+      Compose.trySpdc cfg = .err "angles") ∧
+    (cfg.crystal.thetaDeg.isAuto = true → cfg.poling ≠ .off → ∃ e, Compose.trySpdc cfg = .err e) ∧
+    (cfg.signal.wavelengthNm ≤ cfg.pump.wavelengthNm → ∃ e, Compose.trySpdc cfg = .err e) :=
+  ⟨listed_signal_angles cfg Compose.composedExt,
+   listed_auto_theta_with_poling cfg Compose.composedExt Compose.extNoPanic_composed,
+   listed_ls_le_lp cfg Compose.composedExt Compose.extNoPanic_composed⟩
 
 /-! ## the pinned tree (no early guard) violated the statement — D7 -/
 
